@@ -43,7 +43,7 @@ fn main() {
             Ok(log) => out.write_all(log.as_bytes()).unwrap(),
             Err(_) => {
                 // a panic outside any task poll (e.g. in a Drop during teardown)
-                let l = format!("{{\"ev\":\"Reset\",\"run\":{},\"lossless\":true,\"ordered\":true,\"dup\":false,\"idle\":false,\"maxuni\":0,\"maxbi\":0,\"window\":0,\"sendwin\":0,\"clients\":0}}\n{{\"ev\":\"Panic\",\"task\":-3,\"msg\":\"panic outside poll\"}}\n", run);
+                let l = format!("{{\"ev\":\"Reset\",\"run\":{},\"lossless\":true,\"ordered\":true,\"dup\":false,\"idle\":false,\"maxuni\":0,\"maxbi\":0,\"window\":0,\"sendwin\":0,\"clients\":0,\"ticket\":false,\"eaccept\":false}}\n{{\"ev\":\"Panic\",\"task\":-3,\"msg\":\"panic outside poll\"}}\n", run);
                 out.write_all(l.as_bytes()).unwrap();
             }
         }
